@@ -3257,8 +3257,10 @@ GRendaccess(int32 riid)
 
     /* Check for writing a fill value attribute out */
     if (ri_ptr->store_fill == TRUE) { /* store the fill value attribute before letting go of the image */
-        if (GRsetattr(riid, FILL_ATTR, ri_ptr->img_dim.nt, ri_ptr->img_dim.ncomps, ri_ptr->fill_value) ==
-            FAIL)
+        /* (unless the image has one already: that is where the value came from, and re-writing it under the */
+        /* image's current number type fails when that differs in its native/little-endian flag) */
+        if (GRfindattr(riid, FILL_ATTR) == FAIL &&
+            GRsetattr(riid, FILL_ATTR, ri_ptr->img_dim.nt, ri_ptr->img_dim.ncomps, ri_ptr->fill_value) == FAIL)
             HGOTO_ERROR(DFE_WRITEERROR, FAIL);
         ri_ptr->store_fill = FALSE;
     } /* end if */
